@@ -31,6 +31,9 @@ func init() {
 }
 
 func runC15(w *World, r *Report) {
+	hrNormalisedPathSpelling(w, r, "R3")
+	hrTimestampUTC(w, r, "R5")
+	hrNormalizeTreeInsertsAll(w, r, "R3")
 	// R1
 	ec := w.Fn(pkgSDisc, "EndpointAgg.Combine")
 	eaT := w.Named(pkgSDisc, "EndpointAgg")
